@@ -470,8 +470,11 @@ def run_property(modname, tier, seed, nproc=None, only=None, verbose=False):
         'wall_s': round(wall, 2),
         'violations': nviol,
     }
-    os.makedirs(os.path.join(VERIF, 'evidence'), exist_ok=True)
-    json.dump(ev, open(os.path.join(VERIF, 'evidence', prop + '.json'), 'w'), indent=1)
+    # runs against a scratch copy of the repository (VERIF_REPO=<worktree>, used to try seeded changes) must not
+    # overwrite the evidence of the real tree
+    evdir = os.path.join(VERIF, 'evidence') if os.path.realpath(REPO) == '/repo' else os.path.join(VERIF, 'scratch', 'evidence')
+    os.makedirs(evdir, exist_ok=True)
+    json.dump(ev, open(os.path.join(evdir, prop + '.json'), 'w'), indent=1)
     print('%s tier=%s jobs=%d paths=%d decisions=%d obligations=%d discharged=%d validated=%d '
           'nontrivial=%d solver_s=%.1f wall=%.1fs exhaustive=%s violations=%d known=%d inconclusive=%d' % (
               prop, tier, len(jobs), tot['paths'], tot['decisions'], tot['obligations'], tot['discharged'],
